@@ -288,7 +288,8 @@ func (b *assignmentBuilder) createWithConverter(lhs, rhs bmodel.Node, converter 
 				return nil
 			}
 			argNode, ok = b.castNode(util.DerefPtr(converter.ArgType()), rhsNode)
-			if !ok {
+			if !ok || !isAddressable(argNode) {
+				// The call takes the operand's address: a getter result or a conversion has none.
 				return nil
 			}
 		}
@@ -308,6 +309,16 @@ func (b *assignmentBuilder) createWithConverter(lhs, rhs bmodel.Node, converter 
 
 	logger.Warnf("%v: no assignment for %v [%v]", posStr, lhsExpr, b.imports.TypeName(lhs.ExprType()))
 	return gmodel.NoMatchField{LHS: lhsExpr}, nil
+}
+
+// isAddressable returns true if the expression of the node is a variable or a field selection,
+// whose address can be taken.
+func isAddressable(node bmodel.Node) bool {
+	switch node.(type) {
+	case bmodel.RootNode, bmodel.ScalarNode, bmodel.StructFieldNode:
+		return true
+	}
+	return false
 }
 
 // createWithMapper creates an assignment for the given lhs and rhs nodes using the
